@@ -56,6 +56,8 @@ def is_byteslike(v):
 
 
 def sstr_len(v):
+    if getattr(v, "known_len", None) is not None:
+        return v.known_len
     return norm_int(z3.Length(v.term))
 
 
@@ -387,7 +389,8 @@ def subscript(I, obj, idx):
         n = sstr_len(obj)
         if isinstance(idx, slice):
             lo, hi = slice_bounds(I, idx, n)
-            return SStr(z3.SubString(obj.term, to_z3_int(lo), to_z3_int(hi) - to_z3_int(lo)), obj.is_bytes)
+            kl = (hi - lo) if isinstance(lo, int) and isinstance(hi, int) else None
+            return SStr(z3.SubString(obj.term, to_z3_int(lo), norm_int(to_z3_int(hi) - to_z3_int(lo))), obj.is_bytes, kl)
         i = idx
         if I.path.branch(z3.Or(to_z3_int(i) >= to_z3_int(n), to_z3_int(i) < -to_z3_int(n))):
             raise PyRaise(IndexError("string index out of range"), IndexError)
